@@ -28,3 +28,5 @@ func verifThreadsBlocked() int
 func verifParam(name string, def int) int
 func verifNative() bool
 func verifNativeSleep()
+func verifNativeLock()
+func verifNativeUnlock()
